@@ -56,7 +56,9 @@ FIELDS = {'digest_size': 'nat', '_mac_tag': 'bytes|none', '_update_after_digest'
 # automaton states of fsm.FSM['CMAC'] as field types: (update_after_digest, _mac_tag)
 STATES = {'absorbing': {'_update_after_digest': ('const', False), '_mac_tag': 'none'},
           'digested': {'_update_after_digest': ('const', False), '_mac_tag': 'bytes'},
-          'update_after_digest': {'_update_after_digest': ('const', True), '_mac_tag': 'bytes|none'}}
+          # update_after_digest=True: nothing is ever refused; split by whether a tag has been computed (stale tags are allowed)
+          'uad_fresh': {'_update_after_digest': ('const', True), '_mac_tag': 'none'},
+          'uad_digested': {'_update_after_digest': ('const', True), '_mac_tag': 'bytes'}}
 
 
 def registry(bs=16, state=None, buf='bytes|memoryview'):
@@ -225,7 +227,7 @@ def units(prop, tier):
                     continue
                 u('digest', [m('digest')], bs, st)
                 u('verify', [m('verify')], bs, st, {'mac_tag': 'bytes'} if quick else None)
-        for bs, k, msg in ([(16, 'bytes', 'none'), (8, 'bytearray', 'bytes')] if quick else
+        for bs, k, msg in ([(16, 'bytes', 'none'), (8, 'bytearray', 'none')] if quick else
                            [(b, k, g) for b in (16, 8) for k in ('bytes', 'bytearray', 'memoryview') for g in ('none', 'bytes', 'memoryview')]):
             u('__init__', [m('__init__')], bs, None, {'key': k, 'msg': msg}, '[key:%s,msg:%s]' % (k, msg))
         u('__init__', [m('__init__')], 12, None, {'key': 'bytes', 'msg': 'none'}, '[bad-block-size]')
@@ -235,10 +237,13 @@ def units(prop, tier):
             u('new', [C + 'new'], 8)
     elif prop == 'C09':
         for bs in (16, 8):
-            u('_update', [m('_update')], bs, None, {'data_block': 'bytes|bytearray'} if quick and bs == 8 else None)
+            for b in (['bytes', 'bytearray', 'memoryview'] if not quick or bs == 16 else ['bytearray']):
+                u('_update', [m('_update')], bs, None, {'data_block': b}, '[%s]' % b)
             for b in (['bytes', 'memoryview'] if not quick else ['bytes'] if bs == 16 else ['memoryview']):
                 u('update', [m('update')], bs, 'absorbing', {'msg': b}, '[%s]' % b)
-        u('update', [m('update')], 16 if quick else 8, 'update_after_digest', {'msg': 'bytes'}, '[bytes]')
+        if not quick:
+            for st in ('uad_fresh', 'uad_digested'):
+                u('update', [m('update')], 8, st, {'msg': 'bytes'}, '[bytes]')
     elif prop == 'C10':
         for st in STATES:
             u('update', [m('update')], 16, st, {'msg': 'bytes'}, '[bytes]')
